@@ -58,6 +58,16 @@ func Gen(seed int64, label string, k int) Script {
 				continue
 			}
 			pmtu = true
+			if r.Bool() {
+				// a backlog the congestion window holds back: many small writes, then a large one
+				for j := 0; j < 10+r.Intn(6); j++ {
+					n := 50 + r.Intn(150)
+					sc.Steps = append(sc.Steps, Step{Kind: "write", Len: n})
+					written += int64(n)
+				}
+				sc.Steps = append(sc.Steps, Step{Kind: "write", Len: 3000})
+				written += 3000
+			}
 			sc.Steps = append(sc.Steps, Step{Kind: "pmtu", Len: []int{576, 800, 300, 1006}[r.Intn(4)]})
 		case 0, 1: // in-order peer data
 			n := 1 + r.Intn(700)
